@@ -20,6 +20,8 @@ type RunOpts struct {
 	AllowDrop  bool // honest-to-honest loss allowed (not in the C06 regime)
 	AllowByz   bool
 	CloseSteps int
+	// GreedyDecide switches the "decide whatever is decidable" strategy on (kills.go)
+	GreedyDecide bool
 }
 
 type weights struct{ deliver, alarm, dup, drop, byz, start int }
@@ -269,7 +271,10 @@ func (w *World) RunPrefix(t *rapid.T, o RunOpts) {
 	} else {
 		w.Start(rapid.IntRange(0, len(w.Nodes)-1).Draw(t, "firststart"))
 	}
+	w.GreedyDecide = o.GreedyDecide
+	defer func() { w.ProcessKills(); w.GreedyDecide = false }()
 	for s := 0; s < steps; s++ {
+		w.ProcessKills()
 		if w.AllDecided() {
 			break
 		}
